@@ -208,6 +208,17 @@ int main (int argc, char **argv) {
 			r = pump (p, 10000, dline);
 			if (r == 'D') { emit_done (p, ch[p].pend, dline); ch[p].busy = 0; send_ (p, "gated 0"); pump (p, 10000, dline); }
 			else if (r == 0) vt_emit ("{\"e\":\"Stuck\",\"p\":%d,\"cmd\":\"%s\"}", p, ch[p].pend);
+		} else if (c == 'F') {       /* gated: run the pending op through all remaining gates to completion */
+			int r = 'G', guard = 0;
+			if (!ch[p].busy) continue;
+			while (r == 'G' && guard++ < 64) { if (write (ch[p].to, "c", 1) != 1) vt_die ("step"); r = pump (p, 10000, dline); }
+			if (r == 'D') { emit_done (p, ch[p].pend, dline); ch[p].busy = 0; send_ (p, "gated 0"); pump (p, 10000, dline); }
+			else vt_emit ("{\"e\":\"Stuck\",\"p\":%d,\"cmd\":\"%s\"}", p, ch[p].pend);
+		} else if (c == 'T') {       /* collect the completion of an op started with A if it is already there (300 ms): never a Stuck */
+			int r;
+			if (!ch[p].busy) continue;
+			r = pump (p, 300, dline);
+			if (r == 'D') { emit_done (p, ch[p].pend, dline); ch[p].busy = 0; }
 		} else if (c == 'W') {
 			int r;
 			if (!ch[p].busy) continue;
